@@ -118,6 +118,14 @@ pub fn gen_items(g: &mut Gen, syms: &str, max_items: usize, max_w: usize) -> Vec
                    Item::Quoted((0..len).map(|_| *g.rng.pick(&alpha)).collect()) }
             _ => Item::Apos(1 + (g.rng.next() % 2) as usize),
         };
+        // a literal whose code point shares its low byte with the symbol just before it (U+01xx, U+FFxx fullwidth, U+1F4xx)
+        let it = match (out.last(), &it) {
+            (Some(Item::Field(pc, _)), Item::Lit(_, k)) if g.rng.chance(1, 4) => {
+                let base = *g.rng.pick(&[0x100u32, 0xFF00, 0x1F400]);
+                Item::Lit(char::from_u32(base + *pc as u32).unwrap(), *k)
+            }
+            _ => it,
+        };
         if let Some(prev) = out.last() {
             let (pk, pc) = item_key(prev); let (k, c) = item_key(&it);
             if (pk == 0 && k == 0 && pc == c) || (pk != 0 && k != 0) { continue; }
@@ -178,6 +186,17 @@ fn grid_c11(g: &mut Gen) {
         let items = vec![Item::Field(c, w)];
         let mut strs = vec![unparse(&items)]; let mut ints = vec![1i128, n, o]; let iv = items_ints(&items, &mut strs); ints.extend(iv);
         g.push(true, Input::with_strs("fmt", ints, strs));
+    } } }
+    // a run followed by a literal that aliases the run's letter in its low byte, and the same after a quoted part
+    for (kind, syms) in [(0i128, DATE_SYMS), (1, TIME_SYMS)] { for c in syms.chars() { for base in [0x100u32, 0xFF00, 0x1F400] {
+        let alias = char::from_u32(base + c as u32).unwrap();
+        for items in [vec![Item::Field(c, 1), Item::Lit(alias, 1)], vec![Item::Field(c, 2), Item::Lit(alias, 2), Item::Field(c, 1)],
+                      vec![Item::Lit(alias, 1), Item::Field(c, 2)], vec![Item::Field(c, 1), Item::Quoted("q".to_string()), Item::Field(c, 1)]] {
+            let mut strs = vec![unparse(&items)];
+            let mut ints = if kind == 0 { vec![0i128, days[14]] } else { vec![1i128, clocks[6], 3_600] };
+            let iv = items_ints(&items, &mut strs); ints.extend(iv);
+            g.push(true, Input::with_strs("fmt", ints, strs));
+        }
     } } }
     for c in ['X', 'x'] { for w in 1..=6usize { for &o in &offs {
         let items = vec![Item::Field(c, w)];
@@ -260,6 +279,8 @@ fn gen_unamb(g: &mut Gen, kind: i128, year_abs_lt: i128) -> Vec<Item> {
             if g.rng.chance(1, 6) { out.push(Item::Quoted(" at ".to_string())); last_sep = '\''; }
             else { let mut c = *g.rng.pick(&seps); if c == last_sep { c = if c == '|' { '_' } else { '|' }; }
                    if c == ':' && matches!(fields[i - 1], Item::Field('X', _) | Item::Field('x', _)) { c = if last_sep == ',' { '|' } else { ',' }; }
+                   // sometimes a literal sharing its low byte with the letter of the field before it
+                   if let Item::Field(pc, _) = fields[i - 1] { if g.rng.chance(1, 8) { c = char::from_u32(*g.rng.pick(&[0x100u32, 0xFF00, 0x1F400]) + pc as u32).unwrap(); } }
                    out.push(Item::Lit(c, 1)); last_sep = c; }
         }
         out.push(f.clone());
